@@ -12,7 +12,10 @@
    OHL payload / OHL0 payload -> OK|AssertionError|ValueError l1;l2;...     (repaired / as found)
    VALID name ip              -> 0/1 0/1
    HLP rawline                -> SET name ip | RETURN | FATAL | CRASH cls
-   PIPE v marker p1 p2 ...    -> clientoutcome helperoutcome | hostsline1;hostsline2;...   (v = 1 repaired, 0 as found) *)
+   RDL lim stdin              -> piece1;piece2;...      the successive results of stdin.readline(lim) (lim: "-" = no limit, or a number)
+   PIPE v lim marker p1 p2 ... -> clientoutcome helperoutcome | hostsline1;hostsline2;...
+                                 (v = 1 repaired client, 0 as found; lim = the helper's readline limit: "-" or a number) *)
+let lim_of s = if s = "-" then None else Some (n_of_int (int_of_string s))
 let rec group4 = function
   | a :: b :: c :: d :: tl ->
       n_of_int ((int_of_ascii a lsl 24) lor (int_of_ascii b lsl 16) lor (int_of_ascii c lsl 8) lor int_of_ascii d) :: group4 tl
@@ -37,7 +40,7 @@ let cls_str = function AssertionError -> "AssertionError" | ValueError -> "Value
 let out_str = function COk -> "OK" | CCrash c -> cls_str c
 let hres_str = function
   | HSet (n, i) -> Printf.sprintf "SET %s %s" (hex_of_bytes n) (hex_of_bytes i)
-  | HReturn -> "RETURN" | HFatal -> "FATAL" | HCrash c -> "CRASH " ^ cls_str c | HSplit -> "SPLIT"
+  | HReturn -> "RETURN" | HFatal -> "FATAL" | HCrash c -> "CRASH " ^ cls_str c
 let b01 b = if b then "1" else "0"
 let handle = function
   | "FH" :: w :: s :: d :: calls ->
@@ -65,10 +68,11 @@ let handle = function
   | ["OHL0"; p] -> let (ls, o) = onhostlist_asfound (bytes_of_hex p) in Printf.sprintf "%s %s" (out_str o) (semi ls)
   | ["VALID"; n; i] -> b01 (valid_name (bytes_of_hex n)) ^ " " ^ b01 (valid_ip (bytes_of_hex i))
   | ["HLP"; raw] -> hres_str (helper_line (bytes_of_hex raw))
-  | "PIPE" :: v :: marker :: payloads ->
+  | ["RDL"; lim; x] -> semi (helper_stdin (lim_of lim) [bytes_of_hex x])
+  | "PIPE" :: v :: lim :: marker :: payloads ->
       let onhl = if v = "1" then onhostlist else onhostlist_asfound in
       let (ls, o) = client_run onhl (List.map bytes_of_hex payloads) in
-      let (hm, stop) = helper_run [] ls in
+      let (hm, stop) = helper_run (lim_of lim) [] ls in
       Printf.sprintf "%s %s | %s" (out_str o)
         (match stop with None -> "RUNNING" | Some r -> hres_str r)
         (semi (hosts_lines (bytes_of_hex marker) hm))
